@@ -543,6 +543,14 @@ def shard_hello(sh: Shard, seed, n):
         else:
             name = "".join(r.choice(alphabet) for _ in range(r.randrange(0, 12))) + "|" + "".join(r.choice(alphabet) for _ in range(r.randrange(0, 12)))
             sh.count("names_with_separator")
+        if i % 5 == 2:
+            # names (and identifiers) in which the client prefixes occur as ordinary letters
+            w_ = r.choice(["IOS", "AND", "GRAND spa", "STUDIOS", "HOT AND COLD", "Spa BIOS 2", "ANDROMEDA", "IOS"])
+            k_ = r.randrange(0, len(name) + 1)
+            name = name[:k_] + w_ + name[k_:]
+            if r.random() < 0.3:
+                sid = sid + r.choice([b"-AND", b"IOS", b"-BRAND"])
+            sh.count("names_containing_the_client_prefixes")
         one("HELLO-response", D.GeckoHelloProtocolHandler.response(sid, name), b"<HELLO>" + sid + b"|" + name.encode("latin1") + b"</HELLO>", lambda h, sid=sid, name=name: (h.spa_identifier, h.spa_name) == (sid, name))
     sh.nontrivial(f"hello:{seed}")
 
